@@ -109,15 +109,15 @@ theorem decodeSet_skips (addr : Bytes) (fuel : Nat) (st : St) (sid : Nat) (body 
         have hli : leftInt ⟨addr, sid, 4 + body.length, cnt, emptyTpl⟩ ⟨body ++ rest, cnt + 2 + 2⟩ =
             (body.length : Int) := by
           simp only [leftInt]; omega
-        unfold contCond
-        rw [hli]
+        unfold contCond minLeft
+        rw [hli, if_neg hbig]
         simp only [List.length_append]
         by_cases hb : body.length > 4
-        · have h1 : (body.length : Int) > 4 := by omega
-          have h2 : body.length + rest.length > 4 := by omega
-          simp [h1, h2, hb]
-        · have h1 : ¬ (body.length : Int) > 4 := by omega
-          simp [h1, hb]
+        · have h1 : (body.length : Int) ≥ ((5 : Nat) : Int) := by omega
+          have h2 : body.length + rest.length ≥ 5 := by omega
+          simp only [decide_eq_true h1, decide_eq_true h2, decide_eq_true hb, Bool.and_self]
+        · have h1 : ¬ (body.length : Int) ≥ ((5 : Nat) : Int) := by omega
+          simp only [decide_eq_false h1, decide_eq_false hb, Bool.false_and]
       simp only [hcc, decide_eq_true_eq, skipErr, if_neg hbig, if_neg h4]
       refine skipRest_body _ body rest _ cache recs _ rfl rfl ?_
       split <;> simp
@@ -139,13 +139,14 @@ theorem decFields_total (fs : List Spec) : ∀ (acc : Record) (r : Rd) (res : Ex
       · rw [ih _ _ _ _ h]; exact ht
 
 /-- **skip, one flowset, element missing from the information model**: a data flowset whose template
-`t` is cached, with a body of more than 4 octets on which the record decoder (run on the body alone)
-stops with `unknownElem`, is skipped like an undecodable one, in front of any `rest`. -/
+`t` is cached, with a body of at least one record (`minRecLen t` octets: the record loop is entered) on
+which the record decoder (run on the body alone) stops with `unknownElem`, is skipped like an undecodable
+one, in front of any `rest`. -/
 theorem decodeSet_skips_unknownElem (addr : Bytes) (fuel : Nat) (st : St) (sid : Nat) (body rest : Bytes)
     (t : Template) (r1 : Rd)
     (hsid : sid < 65536) (hlen : 4 + body.length < 65536) (hfuel : 0 < fuel)
     (hrem : st.r.rem = setBytes sid body ++ rest)
-    (hbig : sid > 255) (hlook : st.cache.lookup addr sid = some t) (hbody : body.length > 4)
+    (hbig : sid > 255) (hlook : st.cache.lookup addr sid = some t) (hbody : body.length ≥ minRecLen t)
     (hdec : decodeData t ⟨body, st.r.cnt + 4⟩ = (.error .unknownElem, r1)) :
     decodeSet addr fuel st =
       ({ st with r := ⟨rest, st.r.cnt + (setBytes sid body).length⟩ }, some .unknownElem) := by
@@ -173,11 +174,11 @@ theorem decodeSet_skips_unknownElem (addr : Bytes) (fuel : Nat) (st : St) (sid :
       have hli : leftInt ⟨addr, sid, 4 + body.length, cnt, t⟩ ⟨body ++ rest, cnt + 2 + 2⟩ =
           (body.length : Int) := by
         simp only [leftInt]; omega
-      unfold contCond
-      rw [hli]
-      have h1 : (body.length : Int) > 4 := by omega
-      have h2 : body.length + rest.length > 4 := by omega
-      simp [h1, h2]
+      unfold contCond minLeft
+      rw [hli, if_pos hbig]
+      have h1 : (body.length : Int) ≥ (minRecLen t : Int) := by omega
+      have h2 : (body ++ rest).length ≥ minRecLen t := by simp only [List.length_append]; omega
+      simp only [decide_eq_true h1, decide_eq_true h2, Bool.and_self]
     have h01 : ¬ (sid = 0 ∨ sid = 1) := by omega
     have hres : ¬ (4 ≤ sid ∧ sid ≤ 255) := by omega
     simp only [setLoop, hcc, if_true, if_neg h01, if_neg hres, hf']
@@ -212,7 +213,7 @@ theorem skipped_of_undecodable (addr : Bytes) (c : Cache) (sid : Nat) (body : By
 /-- the hypothesis on the record decoder may be stated at any count (`ShiftV9`) -/
 theorem skipped_of_unknownElem (addr : Bytes) (c : Cache) (sid : Nat) (body : Bytes) (t : Template) (r1 : Rd)
     (hsid : sid < 65536) (hlen : 4 + body.length < 65536)
-    (hbig : sid > 255) (hlook : c.lookup addr sid = some t) (hbody : body.length > 4)
+    (hbig : sid > 255) (hlook : c.lookup addr sid = some t) (hbody : body.length ≥ minRecLen t)
     (hdec : decodeData t ⟨body, 0⟩ = (.error .unknownElem, r1)) :
     Skipped addr c (setBytes sid body) (some .unknownElem) where
   nonfatal := fun x hx => by simp only [Option.some.injEq] at hx; subst hx; rfl
